@@ -455,7 +455,9 @@ Definition parse_events (st : EventsState) (line : str) : EventsState * res :=
           | Some s =>
               match pn_f64 event_params with
               | None => (st, Rejected)
-              | Some e => (set_ev_breaks st (ev_breaks st ++ [mkBreak s (D.max s e)]), Ok)
+              | Some e =>
+                  (* "a break never ends before it starts": if end < start { start } else { end } *)
+                  (set_ev_breaks st (ev_breaks st ++ [mkBreak s (if D.lt e s then s else e)]), Ok)
               end
           end
       | Some EvColor | Some EvSample | Some EvAnimation => (st, Ok)
